@@ -56,8 +56,14 @@ func (g *c10Gen) numExpr(depth int) string {
 	case c == 0:
 		switch g.choose(g.name("var")) {
 		case 0:
+			if g.choose("operandType") == 4 {
+				return []string{"len(x)", "cap(x)"}[g.choose("callee")%2]
+			}
 			return "x"
 		case 2:
+			if g.choose("operandType") == 4 {
+				return []string{"len(x)", "cap(x)"}[g.choose("callee")%2]
+			}
 			return "f()"
 		}
 		return "y"
@@ -110,7 +116,7 @@ func c10Equivalent(typ, a, b string) (same bool, detail string, err error) {
 	if typ == "gsxFloat" {
 		tdecl = "type T float64"
 	}
-	if strings.Contains(a, "f()") || strings.Contains(b, "f()") {
+	if ab := a + " " + b; strings.Contains(ab, "f()") || strings.Contains(ab, "len(x)") || strings.Contains(ab, "cap(x)") {
 		return c10EquivalentImpure(dir, a, b)
 	}
 	src := fmt.Sprintf(`package main
@@ -173,6 +179,11 @@ func replayC10(rc *runCtx, h *harness, v *interp.Violation, file string) (bool, 
 	expr := g.boolExpr(depth)
 	if strings.Contains(expr, "f()") {
 		decl += "var gsxCalls int\n\nfunc f() int { gsxCalls++; return gsxCalls }\n\n"
+	}
+	for _, nm := range []string{"len", "cap"} {
+		if strings.Contains(expr, nm+"(x)") {
+			decl += "var gsxCalls" + nm + " int\n\nfunc " + nm + "(v int) int { gsxCalls" + nm + "++; return gsxCalls" + nm + " + v }\n\n"
+		}
 	}
 	src := fmt.Sprintf("package cand\n\n%sfunc gsxF(x, y %s) bool {\n\treturn %s\n}\n", decl, typ, expr)
 	res, err := runRealised("boolExprSimplify", nil, []string{src}, "")
@@ -407,6 +418,10 @@ var (
 
 func f() T { v := seq[calls%%3]; calls++; return v }
 
+// user-declared namesakes of builtins, as impure as f
+func len(_ T) T { return f() }
+func cap(_ T) T { return f() }
+
 func a(x, y T) bool { return %s }
 func b(x, y T) bool { return %s }
 
@@ -447,4 +462,77 @@ func main() {
 		return false, "", fmt.Errorf("compile/run failed: %v: %s", err, lastLines(text, 3))
 	}
 	return strings.HasPrefix(text, "SAME"), text, nil
+}
+
+// ---- C14 SizeOf: native confirmation of "SizeOf depends on the types sized before".
+// Two distinct types that print alike but differ in size exist in real programs
+// (same-named function-local types, a local type shadowing a package-level one);
+// here they are built directly with the go/types API.
+const sizeOfTest = `package linter
+
+import (
+	"fmt"
+	"go/token"
+	"go/types"
+	"testing"
+)
+
+func TestGSXSizeOf(t *testing.T) {
+	sizes := types.SizesFor("gc", "amd64")
+	pkg := types.NewPackage("p", "p")
+	mk := func(n int64) types.Type {
+		return types.NewNamed(types.NewTypeName(token.NoPos, pkg, "row", nil), types.NewArray(types.Typ[types.Int64], n), nil)
+	}
+	for _, shared := range []bool{false, true} {
+		for _, order := range [][2]int64{{2, 64}, {64, 2}} {
+			for _, wrap := range []string{"named", "slice-elem", "array"} {
+				ctx := NewContext(token.NewFileSet(), sizes)
+				ctx.SetPackageInfo(&types.Info{}, pkg)
+				a := &CheckerContext{Context: ctx}
+				b := a
+				if shared {
+					b = &CheckerContext{Context: ctx}
+				}
+				t1, t2 := mk(order[0]), mk(order[1])
+				switch wrap {
+				case "array":
+					t1, t2 = types.NewArray(t1, 4), types.NewArray(t2, 4)
+				case "slice-elem":
+					t1, t2 = types.NewStruct([]*types.Var{types.NewField(0, pkg, "f", t1, false)}, nil), types.NewStruct([]*types.Var{types.NewField(0, pkg, "f", t2, false)}, nil)
+				}
+				a.SizeOf(t1)
+				got, ok := b.SizeOf(t2)
+				if ok && got != sizes.Sizeof(t2) {
+					fmt.Printf("GSX-SIZEOF-DIFF shared-context=%v %s: after sizing %s (%d bytes), SizeOf(%s) = %d, the platform's size is %d\n", shared, wrap, t1, sizes.Sizeof(t1), t2, got, sizes.Sizeof(t2))
+					return
+				}
+			}
+		}
+	}
+	fmt.Println("GSX-SIZEOF-SAME")
+}
+`
+
+func replaySizeOf(rc *runCtx, h *harness, v *interp.Violation, file string) (bool, string) {
+	if v.Kind == "panic" {
+		return false, "the harness's own reference call of Sizeof may give up (stub); not a statement about SizeOf"
+	}
+	tmp, err := os.MkdirTemp("", "gsx-sizeof-")
+	if err != nil {
+		return false, err.Error()
+	}
+	defer os.RemoveAll(tmp)
+	tf := filepath.Join(tmp, "zz_verif_sizeof_test.go")
+	os.WriteFile(tf, []byte(sizeOfTest), 0o644)
+	out, err := runGoTest(tmp, map[string]string{filepath.Join(repoDir, "linter", "zz_verif_sizeof_test.go"): tf},
+		[]string{"-v", "-vet=off", "-count=1", "-run", "^TestGSXSizeOf$", "./linter"}, nil)
+	if err != nil {
+		return false, err.Error()
+	}
+	for _, l := range strings.Split(out, "\n") {
+		if strings.HasPrefix(l, "GSX-SIZEOF-DIFF") {
+			return true, strings.TrimPrefix(l, "GSX-SIZEOF-DIFF ")
+		}
+	}
+	return false, "native: same-named types of different sizes are sized independently (" + lastLines(out, 2) + ")"
 }
